@@ -177,6 +177,9 @@ func FuncName(f interface{}) string {
 }
 
 func DefHandlerID(prop string) string {
+	if CSSProps != nil && !CSSProps[strings.ToLower(prop)] {
+		return "h:" + FuncName(css.BaseHandler) // no default handler: the handler that rejects everything
+	}
 	return "h:" + FuncName(css.GetDefaultHandler(prop))
 }
 
